@@ -1,4 +1,4 @@
 SPECIFICATION Spec
 CONSTANTS N = 3
-INVARIANTS FlowValid WeakDuality CutCorrect VertexMenger
+INVARIANTS NoAntiparallel FlowValid WeakDuality CutCorrect VertexMenger
 CHECK_DEADLOCK FALSE
